@@ -210,9 +210,9 @@ func c11Gen(t *rapid.T) MetricCase {
 	var c MetricCase
 	d := datagen.GenMetricDataN(t, 36, false, true, false, 2, 8)
 	unwrap := rapid.Bool().Draw(t, "unwrap")
-	opts := datagen.RangeOpts{KeepStage: true, NoOffset: true, Wide: true}
+	opts := datagen.RangeOpts{KeepStage: true, NoOffset: true, Wide: true, Grouping: true}
 	if unwrap {
-		opts.Funcs = []string{"sum_over_time", "avg_over_time", "max_over_time"}
+		opts.Funcs = []string{"sum_over_time", "avg_over_time", "max_over_time", "min_over_time", "max_over_time"}
 	} else {
 		opts.Funcs = []string{"count_over_time", "bytes_over_time", "rate"}
 	}
